@@ -6,7 +6,7 @@
     Target besides addresses/request name, of a Configuration besides
     revision/requests/targets; [R_eqb], [O_eqb] stand for proto.Equal and are
     assumed to decide equality of content.  [p] is the patch flag of
-    TargetCfgModel.patched_C17_1 ([false] = target.go as it is now): every
+    TargetCfgModel.patched_C17_1 ([true] = target.go as it is now, [false] = before the fix b7e5099): every
     theorem holds for both values unless it says otherwise.  [effective s] maps
     each target name to (target settings, content of the request it names);
     [replay] applies Add/Update/Delete calls strictly (Add of a held name,
@@ -77,9 +77,10 @@ Theorem C17_replay_order_independent :
 Proof. exact @replay_order_independent. Qed.
 Print Assumptions C17_replay_order_independent.
 
-(** FALSE of target.go as it is now (p = false) once the caller edits a loaded
-    message in place: the edit becomes current without announcement and the
-    valid, newer re-load is refused (DEFECT C17_1, known finding KF-C17-1) *)
+(** regression witness: FALSE of target.go as it was before b7e5099 (p = false)
+    once the caller edits a loaded message in place: the edit became current
+    without announcement and the valid, newer re-load was refused (former
+    finding KF-C17-1; the code as it is now is p = true, covered above) *)
 Theorem C17_replay_converges_unpatched_refuted :
   exists hs : list Witness.shop,
     Forall hop_wf hs
